@@ -28,7 +28,7 @@ CLAIMS = {
         "rollout stop => active targets; rollout set without rollout targets is rejected and changes nothing; stickiness over whole histories "
         "(C10_split_survives_command / _history, by induction over ANY command sequence): the split of a service is left exactly as set by every "
         "command other than rollout set / rollout stop / remove on that service and restart - incl. redeploys, failed deploys, pause/stop/resume, "
-        "commands on other services. Tied by comparing Go's split "
+        "commands on other services; rollout targets stay attached over histories and the decision depends on the record only through them and the split. Tied by comparing Go's split "
         "point for every percentage, cookie extraction and decision on generated headers, and rollout histories on the real Router.",
    note=TB + "Modelled stdlib: float64 rounding (2 operations), net/http readCookies, hash/fnv. Statistical uniformity of FNV-1a is not proved."),
 
